@@ -308,8 +308,7 @@ contract('loader.ConfigLoader.startSection',
 contract('loader.ConfigLoader.endSection',
          params={'parent': 'Ref[matcher.BaseMatcher]', 'type_': 'str', 'name': 'Opt[str]',
                  'matcher': 'Ref[matcher.BaseMatcher]'},
-         requires=[Clause('not matcher.finished', label='closed-at-most-once (the precondition of ParserContext.endSection, '
-                          'which the parser proves at its call)')],
+         requires=[Clause('not matcher.finished', label='closed-at-most-once')],   # = the precondition of ParserContext.endSection (subtype obligation)
          modifies=['matcher._values', 'matcher.handlers.items', 'matcher.finished', 'parent._values', 'parent._sectionnames',
                    'matcher.optionbag.keypairs'],
          asserts=[At('args[0] == type_ and args[1] == name', call='parent.addSection', carries='C01,C02',
